@@ -299,3 +299,136 @@ Fixpoint parse_all (S : schema) (l : list stmt) : outcome (list node) :=
   end.
 
 Definition parse_one (S : schema) (s : stmt) : outcome node := n <- build S s None ;; add S n.
+
+(* ------------------------------------------------------------------ errors with kind and position
+   The same builder, returning for an error its kind and the statement whose Location() the Go code
+   puts in front of the message (None = the message carries no position).  Error sites of ast.go
+   build, in evaluation order:
+     nameMap[keyword] == nil           "%s: unknown statement"         stmt.Location()
+     per substatement ss, in source order:
+       pointer field already set       keyword + ": already set"       (errors.New: no position)
+       the nested build fails          its error, unchanged
+       prefixed, no Ext field          "%s: no extension function"     ss.Location()
+       otherwise unknown               "%s: unknown %s field"          ss.Location()
+     required field absent             "%s: missing required ..."      stmt.Location()
+     sRequired[stmt.Keyword] absent    "%s: missing required ..."      stmt.Location()
+     field of another kind present     "%s: unknown %s field"          stmt.Location()  (the PARENT:
+                                       KNOWN_FINDINGS builder.kind-field-reported-at-parent)
+   and Modules.checkAdd's "not a module or submodule" (no position). *)
+
+Inductive ekind :=
+| EUnknownStmt | EUnknownField | ENoExt | EAlreadySet | EMissing | EMissingKind | EOtherKind | ENotModule.
+
+Inductive result (A : Type) : Type :=
+| ROk (a : A)
+| RErr (k : ekind) (pos : option nat)
+| RPanic
+| RUnmodelled.
+Arguments ROk {A} a.
+Arguments RErr {A} k pos.
+Arguments RPanic {A}.
+Arguments RUnmodelled {A}.
+
+Definition forget {A} (r : result A) : outcome A :=
+  match r with ROk a => Ok a | RErr _ _ => Err | RPanic => Panic | RUnmodelled => Unmodelled end.
+
+Definition lift {A} (o : outcome A) : result A :=   (* for the parts of build that never return an error *)
+  match o with Ok a => ROk a | Err => RPanic | Panic => RPanic | Unmodelled => RUnmodelled end.
+
+Definition rbind {A B} (x : result A) (f : A -> result B) : result B :=
+  match x with
+  | ROk a => f a
+  | RErr k p => RErr k p
+  | RPanic => RPanic
+  | RUnmodelled => RUnmodelled
+  end.
+
+Definition step_e (sd : sdef) (bld : unit -> result node) (ss : stmt) (st : bstate) : result bstate :=
+  let '(fs, ex, fd) := st in
+  let k := kw_of ss in
+  let fd := k :: fd in
+  match classify sd k with
+  | KField f =>
+      match f_kind f with
+      | FSingle fty =>
+          match get k fs with
+          | _ :: _ => RErr EAlreadySet None
+          | [] =>
+              rbind (bld tt) (fun n =>
+              if String.eqb (n_ty n) fty then ROk (upd k (fun _ => [n]) fs, ex, fd) else RPanic)
+          end
+      | FMulti fty =>
+          rbind (bld tt) (fun n =>
+          if String.eqb (n_ty n) fty then ROk (upd k (fun l => (l ++ [n])%list) fs, ex, fd) else RPanic)
+      | _ => RPanic
+      end
+  | KExt =>
+      match field_of sd "Ext" with
+      | None => RErr ENoExt (Some (id_of ss))
+      | Some f => match f_kind f with
+                  | FExt => ROk (fs, (ex ++ [id_of ss])%list, fd)
+                  | _ => RPanic
+                  end
+      end
+  | KUnknown => RErr EUnknownField (Some (id_of ss))
+  end.
+
+Definition check_req1 (sd : sdef) (found : list string) : bool :=
+  forallb (fun f => implb (f_required f) (mem (f_key f) found)) (s_fields sd).
+Definition check_req2 (sd : sdef) (kw : string) (found : list string) : bool :=
+  forallb (fun f => implb (mem kw (f_reqkinds f)) (mem (f_key f) found)) (s_fields sd).
+Definition check_req3 (sd : sdef) (kw : string) (found : list string) : bool :=
+  forallb (fun f => forallb (fun n => String.eqb n kw || negb (mem (f_key f) found)) (f_reqkinds f))
+          (s_fields sd).
+
+Definition finish_e (sd : sdef) (ty kw nm : string) (i : nat) (sr pa : option nat) (st : bstate) : result node :=
+  let '(fs, ex, fd) := st in
+  if negb (check_req1 sd fd) then RErr EMissing (Some i)
+  else if negb (check_req2 sd kw fd) then RErr EMissingKind (Some i)
+  else if negb (check_req3 sd kw fd) then RErr EOtherKind (Some i)
+  else ROk (Node ty nm sr pa fs ex).
+
+Section LoopE.
+  Variable stepf : stmt -> bstate -> result bstate.
+  Fixpoint loop_with_e (l : list stmt) (st : bstate) : result bstate :=
+    match l with
+    | [] => ROk st
+    | ss :: r => rbind (stepf ss st) (fun st' => loop_with_e r st')
+    end.
+End LoopE.
+
+Fixpoint build_e (S : schema) (s : stmt) (p : option pref) {struct s} : result node :=
+  match s with
+  | Stmt kw ha a i subs =>
+      match struct_of S kw with
+      | None => RErr EUnknownStmt (Some i)
+      | Some (ty, None) => RPanic
+      | Some (ty, Some sd) =>
+          rbind (lift (special_name sd a)) (fun nm =>
+          rbind (lift (special_src sd i)) (fun sr =>
+          rbind (lift (special_parent S sd p)) (fun pa =>
+          rbind (loop_with_e (fun ss st => step_e sd (fun _ => build_e S ss (Some (ty, i))) ss st)
+                             subs (init_fields sd, [], [])) (fun st =>
+          finish_e sd ty kw nm i sr pa st))))
+      end
+  end.
+
+Definition build_list_e (S : schema) (sd : sdef) (me : pref) (l : list stmt) (st : bstate) : result bstate :=
+  loop_with_e (fun ss st => step_e sd (fun _ => build_e S ss (Some me)) ss st) l st.
+
+Definition add_e (S : schema) (n : node) : result node :=
+  match add S n with
+  | Ok m => ROk m
+  | Err => RErr ENotModule None
+  | Panic => RPanic
+  | Unmodelled => RUnmodelled
+  end.
+
+Fixpoint parse_all_e (S : schema) (l : list stmt) : result (list node) :=
+  match l with
+  | [] => ROk []
+  | s :: r =>
+      rbind (build_e S s None) (fun n =>
+      rbind (add_e S n) (fun m =>
+      rbind (parse_all_e S r) (fun ms => ROk (m :: ms))))
+  end.
